@@ -77,6 +77,14 @@ class Rule:
                 np.ma.getdata(n)[...] = 3        # the block handed to the rule is the rule's to scribble on
             except (ValueError, TypeError):
                 pass                              # read-only view: nothing to clobber
+        if self.mixret == "zerod":
+            # what `np.where(cond, a, b)` or `np.sum(..., keepdims=False)` on scalars hands back: a 0-d ndarray
+            dt = np.ma.getdata(n).dtype
+            val = out / self.scale if self.scale != 1 else out
+            try:
+                return np.array(val, dtype=dt if self.name != "half" else None)
+            except (OverflowError, ValueError):
+                return np.array(val)
         if self.mixret and self.scale == 1 and len(self.log) % 2:
             dt = np.ma.getdata(n).dtype
             if dt.kind in "iu":
